@@ -32,7 +32,7 @@ Why the existing tests cannot settle it: {p['why_tests_cant']}
 
 Files the property is anchored in: {', '.join(p['anchors']['files'])}
 
-Focus for your change: other people have already seeded the changes listed below for this property; yours must be a DIFFERENT idea (different mechanism, different clause of the statement, or a different part of the API surface that the statement covers). First list the exported functions/methods of the anchored files and prefer one that none of the earlier ideas below touches. This round, aim at EXCEPTION SAFETY and ERROR PATHS: a user-supplied callback (effect, OnNext, f, interceptor, job, serializer, pattern effect, posted function) panics or returns an error, the caller recovers / handles it, and then the SAME object is used again - a lock left held, a counter or flag not restored, a list half-updated, a goroutine that died and is never replaced, a channel left full, an entry left registered. Also: errors returned by a wrapped/inner structure or a collaborator passed in by the caller (a full or closed inner queue, a failing reader, a transport error) in the middle of a multi-step operation. The change itself should look like an ordinary refactoring (defer replaced by explicit unlock, state updated before instead of after the callback, early return added) and must leave the success path untouched. Make sure the change really contradicts the statement as written (quote the clause it breaks in your NOTES.md) and is not merely a behaviour change the statement does not talk about. Prefer bugs that need a rare combination: a particular interleaving AND a particular configuration, two edits that are each harmless alone, or state that only goes wrong on the second/third use of the same object. Also consider code the anchored files DEPEND on (helpers in other files of the library that the anchored code calls), constructor variants, getters/setters and zero/negative/huge parameter values that the earlier ideas did not touch; setters or configuration changed while the object is in use; one object, option value or caller-owned slice/map reused across several calls; error, timeout, cancellation and already-closed paths; nil callbacks.
+Focus for your change: other people have already seeded the changes listed below for this property; yours must be a DIFFERENT idea (different mechanism, different clause of the statement, or a different part of the API surface that the statement covers). First list the exported functions/methods of the anchored files and prefer one that none of the earlier ideas below touches. This round, aim at COMBINATIONS OF LIBRARY PIECES as a user composes them (read README.md, the doc comments and how *_test.go uses the API): Actor + Ask + Handler; Cor + MonadIO + Handler (YieldFromIO, DoNotation); WorkerPool + BufferedChannelQueue + Invokable; Publisher + Map + Handler; SimpleAPI + SimpleHTTP + interceptors + MonadIO (Eval vs Subscribe, ObserveOn/SubscribeOn); ConcurrentQueue/Stack over the different queue kinds; Stream/Set helpers used by the anchored code. Pick a combination of two or three pieces that the property statement still covers and break the property ONLY in that combination (each piece on its own, and the combination the existing tests use, keep working) - e.g. by changing a helper both pieces share, a default one piece hands to the other, or an assumption one piece makes about the other's goroutine, channel capacity, ownership or close order. Make sure the change really contradicts the statement as written (quote the clause it breaks in your NOTES.md) and is not merely a behaviour change the statement does not talk about. Prefer bugs that need a rare combination: a particular interleaving AND a particular configuration, two edits that are each harmless alone, or state that only goes wrong on the second/third use of the same object. Also consider code the anchored files DEPEND on (helpers in other files of the library that the anchored code calls), constructor variants, getters/setters and zero/negative/huge parameter values that the earlier ideas did not touch; setters or configuration changed while the object is in use; one object, option value or caller-owned slice/map reused across several calls; error, timeout, cancellation and already-closed paths; nil callbacks.
 {ex}
 """)
 print("prepared", len(claimed), "worktrees with suffix", suffix)
